@@ -55,6 +55,15 @@ def classify(agg, path, body, eft_bodies):
         return None, "constant pair (%r, %r) overlaps" % (ch, cl)
     if cl is not None and cl == 0.0:
         return "k2", "low word is the literal %r" % cl
+    # k3t the entry at one index of two parallel constant word tables, every pair of which is valid
+    if tag(hi) == "index" and tag(lo) == "index" and hi[2] is lo[2] and tag(hi[1]) == "carray" and tag(lo[1]) == "carray":
+        ma = re.match(r"^\[f64; (\d+)\]$", hi[1][1]); mb = re.match(r"^\[f64; (\d+)\]$", lo[1][1])
+        if ma and mb and ma.group(1) == mb.group(1):
+            wa = F.words_from_hex(hi[1][2]); wb = F.words_from_hex(lo[1][2])
+            bad = [j for j, (x, y) in enumerate(zip(wa, wb)) if not (math.isfinite(oracle.f64_of(x)) and oracle.valid(oracle.f64_of(x), oracle.f64_of(y)))]
+            if len(wa) == len(wb) == int(ma.group(1)) and not bad:
+                return "k3", "entry i of two parallel constant word tables; all %d pairs are valid in exact rationals" % len(wa)
+            return None, "parallel word tables whose pair(s) %s overlap" % bad[:4]
     # k4 word-wise negation of one value
     if tag(hi) == "f" and hi[1] == "neg" and tag(lo) == "f" and lo[1] == "neg":
         a, b = hi[2], lo[2]
@@ -342,9 +351,10 @@ def ok_source(v):
             return True      # a function of this crate: its own returns are classified where it is defined
         if re.match(r"^core::ops::(function::)?Fn(Once|Mut)?::call(_once|_mut)?<", n):
             return True      # the value of a closure / fn-item parameter: code of this crate, read where it is passed
-        if re.match(r"^core::ops::\w+::\w+<TwoFloat,", n):
-            # an operator on TwoFloat not resolved inside a private generic helper: every impl is either one of
-            # the crate's (classified itself) or a downstream one, which can only use the public constructors
+        if re.match(r"^core::ops::\w+::\w+<TwoFloat,", n) or re.match(r"^core::ops::(Add|Sub|Mul|Div|Rem|Neg)::\w+<", n):
+            # an arithmetic operator yielding a TwoFloat, not resolved inside a private generic helper: by the orphan rule every
+            # such impl is either one of the crate's (classified itself) or a downstream one on a downstream type, which can only
+            # use the public constructors
             return True
         if n.startswith("core::option::Option::<T>::") or n.startswith("core::result::Result::<T, E>::"):
             return True      # a combinator of core: it hands on what it was given or what a closure of this crate returns
